@@ -41,6 +41,7 @@ type Contract struct {
 	FnParamReq map[string][]*Clause // obligations at every call of a function-typed parameter
 	CallSites  map[string][]*Clause // obligations at every call of a named function
 	FnParamPure map[string]bool     // function-typed parameters/fields assumed to be effect-free
+	FnParamCounts map[string]string // function value name -> ghost counter incremented by each call
 	Trusted  bool // contract assumed at call sites, body not verified
 	Pure     bool
 	BV       bool
@@ -455,6 +456,15 @@ func (e *Engine) LoadContractFile(file, pkgPath string) error {
 						cur.FnParamPure = map[string]bool{}
 					}
 					cur.FnParamPure[pn] = true
+					break
+				}
+				if w == "counts" {
+					// fnparam <name> counts <ghost>: every call of the function
+					// value increments that integer ghost (an exact invocation counter)
+					if cur.FnParamCounts == nil {
+						cur.FnParamCounts = map[string]string{}
+					}
+					cur.FnParamCounts[pn] = strings.TrimSpace(r2)
 					break
 				}
 				if w != "ensures" && w != "requires" {
